@@ -215,12 +215,6 @@ static long verify_prefix(const uint8_t *p, uint32_t key, size_t n) {
 
 static struct small_block_allocator *impl(void) { return (struct small_block_allocator *)g_sba->impl; }
 
-static size_t class_of(size_t size) {
-    for (int i = 0; i < AWS_SBA_BIN_COUNT; ++i)
-        if (size <= s_bin_sizes[i]) return s_bin_sizes[i];
-    return 0;
-}
-
 static int lowest_free(void) {
     for (int i = 0; i < NSLOT; ++i)
         if (!sl[i].live) return i;
@@ -232,15 +226,25 @@ static int nlive(void) {
     return n;
 }
 
-/* ---- ops ---- */
-static int OP_CALLOC, OP_REALLOC, OP_RELEASE, OP_ACTIVE, OP_RESERVED, NOPS;
+/* ---- ops ----
+ *   [0, ns)            acquire(size)        [ns, 2ns)   calloc (if the profile has it)
+ *   OP_ACTIVE, OP_RESERVED
+ *   OP_SLOT + s*(ns+2) + 0        release(p_s)
+ *   OP_SLOT + s*(ns+2) + 1 + k    realloc(p_s, sizes[k])   (k == ns: new size 0)
+ * Numbers do not depend on the number of slots in use, so a token found at one depth replays at any other. */
+static int OP_CALLOC, OP_ACTIVE, OP_RESERVED, OP_SLOT, SLOT_STRIDE, NOPS;
 static void layout_ops(void) {
     OP_CALLOC = g_p->ns;
-    OP_REALLOC = g_p->with_calloc ? 2 * g_p->ns : g_p->ns;
-    OP_RELEASE = OP_REALLOC + NSLOT * (g_p->ns + 1);
-    OP_ACTIVE = OP_RELEASE + NSLOT;
+    OP_ACTIVE = g_p->with_calloc ? 2 * g_p->ns : g_p->ns;
     OP_RESERVED = OP_ACTIVE + 1;
-    NOPS = OP_RESERVED + 1;
+    OP_SLOT = OP_RESERVED + 1;
+    SLOT_STRIDE = g_p->ns + 2;
+    NOPS = OP_SLOT + NSLOT * SLOT_STRIDE;
+}
+/* decode a per-slot op: returns slot, *k = -1 for release, else index of the new size (ns = size 0) */
+static int slot_op(int op, int *k) {
+    *k = (op - OP_SLOT) % SLOT_STRIDE - 1;
+    return (op - OP_SLOT) / SLOT_STRIDE;
 }
 
 static void m_reset(void) {
@@ -257,14 +261,11 @@ static void m_reset(void) {
 }
 
 static bool m_enabled(int op) {
-    if (op < OP_REALLOC) return lowest_free() >= 0;
-    if (op < OP_RELEASE) {
-        int s = (op - OP_REALLOC) / (g_p->ns + 1), k = (op - OP_REALLOC) % (g_p->ns + 1);
-        if (sl[s].live) return true;
-        return s == lowest_free() && k < g_p->ns; /* realloc(NULL, 0, new) once, not per empty slot */
-    }
-    if (op < OP_ACTIVE) return sl[op - OP_RELEASE].live != 0;
-    return true;
+    if (op < OP_ACTIVE) return lowest_free() >= 0;
+    if (op < OP_SLOT) return true;
+    int k, s = slot_op(op, &k);
+    if (sl[s].live) return true;
+    return k >= 0 && k < g_p->ns && s == lowest_free(); /* realloc(NULL, 0, new) once, not per empty slot */
 }
 
 /* placement of one block: returns the size class observed for it (0 = parent) */
@@ -374,9 +375,10 @@ static void m_apply(int op) {
     g_new_op = !esx_in_replay; /* (--replay applies every step as a new transition: all of them are verified) */
     g_verify = g_new_op;
     struct wb w0, w1;
+    int kk = 0;
     wb_take(&w0);
     ++g_step;
-    if (op < OP_REALLOC) {
+    if (op < OP_ACTIVE) {
         int s = lowest_free(), is_calloc = g_p->with_calloc && op >= OP_CALLOC;
         size_t size = g_p->sizes[op % g_p->ns];
         uint8_t *p;
@@ -410,8 +412,11 @@ static void m_apply(int op) {
             if (esx_failed) return;
         }
         fill(s); /* writes the whole requested size: ASan reports if any of it is not ours */
-    } else if (op < OP_RELEASE) {
-        int s = (op - OP_REALLOC) / (g_p->ns + 1), k = (op - OP_REALLOC) % (g_p->ns + 1);
+    } else if (op < OP_SLOT) {
+        /* bytes_active / bytes_reserved: the observation itself is part of check_all */
+        check_all(nm, -1);
+    } else if (slot_op(op, &kk) >= 0 && kk >= 0) {
+        int s = slot_op(op, &kk), k = kk;
         size_t newsize = k < g_p->ns ? g_p->sizes[k] : 0;
         struct slot old = sl[s];
         void *ptr = old.live ? old.ptr : NULL;
@@ -468,15 +473,12 @@ static void m_apply(int op) {
             if (esx_failed) return;
             fill(s);
         }
-    } else if (op < OP_ACTIVE) {
-        int s = op - OP_RELEASE;
+    } else {
+        int s = slot_op(op, &kk);
         aws_mem_release(g_sba, sl[s].ptr);
         sl[s].live = 0;
         wb_take(&w1);
         wb_count(&w0, &w1, 0);
-        check_all(nm, -1);
-    } else {
-        /* bytes_active / bytes_reserved: the observation itself is part of check_all */
         check_all(nm, -1);
     }
     g_new_op = 0;
@@ -592,15 +594,16 @@ static size_t m_canon(uint8_t *b, size_t cap) {
 
 static void m_opname(int op, char *buf, size_t cap) {
     if (op < OP_CALLOC) snprintf(buf, cap, "acquire(%zu)", g_p->sizes[op]);
-    else if (op < OP_REALLOC) {
+    else if (op < OP_ACTIVE) {
         size_t n, sz;
         calloc_split(g_p->sizes[op - OP_CALLOC], &n, &sz);
         snprintf(buf, cap, "calloc(%zu,%zu)", n, sz);
-    } else if (op < OP_RELEASE) {
-        int s = (op - OP_REALLOC) / (g_p->ns + 1), k = (op - OP_REALLOC) % (g_p->ns + 1);
-        snprintf(buf, cap, "realloc(p%d,%zu)", s, k < g_p->ns ? g_p->sizes[k] : (size_t)0);
-    } else if (op < OP_ACTIVE) snprintf(buf, cap, "release(p%d)", op - OP_RELEASE);
-    else snprintf(buf, cap, op == OP_ACTIVE ? "bytes_active" : "bytes_reserved");
+    } else if (op < OP_SLOT) snprintf(buf, cap, op == OP_ACTIVE ? "bytes_active" : "bytes_reserved");
+    else {
+        int k, s = slot_op(op, &k);
+        if (k < 0) snprintf(buf, cap, "release(p%d)", s);
+        else snprintf(buf, cap, "realloc(p%d,%zu)", s, k < g_p->ns ? g_p->sizes[k] : (size_t)0);
+    }
 }
 
 static struct esx_model model = {
@@ -616,7 +619,8 @@ static const struct profile profiles[] = {
     {"full", 10, ALL10,            0, 0,  5,  6, 1, 1, 0}, /* default page: every size, every realloc pair */
     {"full", 10, ALL10,            0, 0,  5,  7, 2, 1, 4}, /* 2048-byte page */
     {"full", 10, ALL10,            1, 1,  4,  5, 1, 1, 0}, /* multi_threaded=true: per-bin mutexes taken on one thread */
-    {"big",   3, {257, 512, 513},  0, 2,  8,  9, 3, 1, 8}, /* bin 512 + parent: 3 blocks per 2048 page, 7 per 4096 page */
+    {"big",   3, {257, 512, 513},  0, 2,  8,  9, 1, 1, 0}, /* bin 512 + parent: 7 blocks per 4096 page */
+    {"big",   3, {257, 512, 513},  0, 2,  9,  9, 2, 1, 8}, /* 3 blocks per 2048 page: turn-over, purge, page reuse within 9 ops */
     {"big",   3, {257, 512, 513},  1, 1,  7,  9, 2, 1, 6},
     {"d512",  1, {512},            0, 0, 10, 14, 1, 0, 0}, /* 7 blocks per page: exhaustion at 7, page freed at 14 */
     {"d256",  1, {256},            0, 0, 10, 14, 2, 0, 0},
@@ -627,12 +631,13 @@ int main(int argc, char **argv) {
     aws_common_library_init(aws_default_allocator());
     int is2k = PAGE == 2048;
     int rc = 0;
-    const char *only = getenv("SBASEQ_ONLY"), *dep = getenv("SBASEQ_DEPTH");
+    const char *only = getenv("SBASEQ_ONLY"), *dep = getenv("SBASEQ_DEPTH"); /* development aids only: ./check never sets them */
     for (size_t i = 0; i < sizeof(profiles) / sizeof(profiles[0]); ++i) {
         g_p = &profiles[i];
         if (!(g_p->page_sizes & (is2k ? 2 : 1))) continue;
         snprintf(g_name, sizeof(g_name), "sba%zu-%s-%s", PAGE, g_p->multi_threaded ? "mt" : "st", g_p->name);
         model.name = g_name;
+        NSLOT = MAXSLOT; /* replay: all slots addressable (op numbers do not depend on NSLOT) */
         layout_ops();
         model.nops = NOPS;
         if (v_replay_token) {
